@@ -130,6 +130,9 @@ func (m *model) execute(a string) (string, error) {
 		if err != nil {
 			return "", err
 		}
+		if r.Code != 0 && starved(r.Err) {
+			return "", fmt.Errorf("git-bug %v could not start a process (machine overloaded): %s", args, tidy(r.Err))
+		}
 		return cliOutcome(r), nil
 	}
 	b, err := m.curBug()
